@@ -1,8 +1,8 @@
-"""Engine `usb2stack` -- the USB2 PHY-to-device stack as a composition (EXTRA sub-checks for C20, C22, C23, C25, C57).
+"""Engine `usb2stack` -- the USB2 PHY-to-device stack as a composition (EXTRA sub-checks for C20, C22, C23, C57).
 
 DUT (A): ULPI PHY model (hosts/ulpi_phy.py, driven by hosts/ulpi_host.py) -> real UTMITranslator -> real USBDevice with the
 standard control endpoint and the CDC-ACM stream endpoints (`USBSerialDevice(bus=<ULPI record>)`), 60 MHz `usb` domain.
-DUT (B): full-speed line-level host (hosts/fsline_host.py) -> real GatewarePHY -> the same device, 12 MHz `usb` / 48 MHz `usb_io`.
+DUT (B), NOT BUILT: full-speed line-level host -> real GatewarePHY -> the same device (specified in Usb2Stack.tla only).
 
 The leaf engines check the translator (C22/C23), the gateware PHY (C25), the device core on a UTMI record (C20) and the serial
 device on a UTMI record (C57) one by one; none of them elaborates `USBDevice(bus=<ULPI or raw pins>)`, so the wiring in
@@ -16,7 +16,6 @@ import random
 
 from .. import tlc
 from ..core import use_repo
-from ..pipeline import validate_group
 from ..hosts import utmi
 from . import usbserial as leaf
 
@@ -56,8 +55,7 @@ class StackBench(leaf.Bench):
             from ..hosts import ulpi_host
             self.bus = ulpi_host.make_ulpi_record()
         else:
-            from ..hosts import fsline_host
-            self.bus = fsline_host.make_io_record()
+            raise NotImplementedError("line-level bench (part B) not built")
         self.dut = USBSerialDevice(bus=self.bus, idVendor=VID, idProduct=PID, max_packet_size=maxpkt)
         self.sim = Simulator(self.dut)
         if phy == "ulpi":
@@ -74,8 +72,7 @@ class StackBench(leaf.Bench):
             from ..hosts import ulpi_host
             return ulpi_host.ULPIHost(self.bus, rng, gap_prob=sc.get("gap", 0.0), stall_prob=sc.get("stall", 0.0),
                                       max_stall=sc.get("max_stall", 3), fs_pacing=sc.get("fs_pacing", 0))
-        from ..hosts import fsline_host
-        return fsline_host.FSLineHost(self.bus, rng, phase=sc.get("phase", 0))
+        raise NotImplementedError("line-level bench (part B) not built")
 
     # -- PHY-boundary records ------------------------------------------------------------------
     def _wire(self):
@@ -460,31 +457,59 @@ def corrupted_copy(tr):
 
 
 def validate(rep, items, maxpkt, what):
+    """One TLC run per group: all recorded traces + a damaged copy (canary, must be rejected by the expected clause)."""
     for tr, _ in items:
         account(rep, tr)
     cfg = tlc.render_cfg(_cfg("Usb2StackTrace.cfg.tmpl"), {"MaxPkt": maxpkt, "BufBytes": 2 * maxpkt - 1})
-    validate_group(rep, SPEC_DIR, "Usb2StackTrace", cfg, items, classify=classify,
-                   steps_of=lambda t: len(t["steps"]), what_prefix=what)
-    # canary (machinery self-test): a damaged copy must be rejected
-    for tr, _ in items:
-        bad, clause = corrupted_copy(tr)
-        if bad is not None:
-            v, _ = tlc.validate_traces(SPEC_DIR, "Usb2StackTrace", cfg, [bad])
-            if v[0][1] == "ok" and v[0][0] == len(bad["steps"]):
-                raise tlc.TLCError("usb2stack canary: a trace with a damaged device packet was accepted")
-            if clause and v[0][1] != clause:
-                raise tlc.TLCError("usb2stack canary: damaged device packet rejected by clause %r, expected %r" % (v[0][1], clause))
+    canary, clause, src = None, None, None
+    for i, (tr, _) in enumerate(items):
+        canary, clause = corrupted_copy(tr)
+        if canary is not None:
+            src = i
             break
+    traces = [t for t, _ in items] + ([canary] if canary is not None else [])
+    verdicts, _res = tlc.validate_traces(SPEC_DIR, "Usb2StackTrace", cfg, traces, timeout=900)
+    if canary is not None:
+        matched, status = verdicts.pop()
+        src_ok = verdicts[src] == (len(items[src][0]["steps"]), "ok")
+        if src_ok:                        # judged only when the undamaged original was accepted
+            if status == "ok" and matched == len(canary["steps"]):
+                raise tlc.TLCError("usb2stack canary: a trace with a damaged device packet was accepted")
+            if clause and status != clause:
+                raise tlc.TLCError("usb2stack canary: damaged device packet rejected by clause %r, expected %r" % (status, clause))
+    ok = steps = 0
+    for (trace, meta), (matched, status) in zip(items, verdicts):
+        n = len(trace["steps"])
+        if status == "ok" and matched == n:
+            ok += 1
+            steps += n
+            continue
+        if status.startswith("env_"):
+            raise tlc.TLCError("usb2stack: stimulus left the Env (%s) in %s" % (status, meta))
+        sig = classify(trace, matched, status, meta)
+        k = matched if status != "ok" else matched + 1
+        recs = trace["steps"]
+        rep.violation(sig, "%s%s: real-gateware trace rejected by Usb2StackTrace at step %d/%d, clause '%s' (%s); last records: %s"
+                      % (what, meta, k, n, status, sig.get("pattern"), recs[max(0, k - 3):k]),
+                      {"meta": meta, "failing_step": k, "clause": status, "trace_prefix": recs[:k + 1], "cfg": trace["cfg"]})
+    rep.add_traces(ok, steps)
     if items:
         rep.sample({"engine": ENGINE, "origin": items[0][1], "first_records": items[0][0]["steps"][:4]})
 
 
 # ---- model checking ------------------------------------------------------------------------------------------------
-def model_check(rep, quick):
-    cfg = tlc.render_cfg(_cfg("MCUsb2Stack.cfg.tmpl"), {"MaxLog": 2 if quick else 3})
-    res = tlc.model_check(SPEC_DIR, "MCUsb2Stack", cfg, timeout=3000)
-    rep.add_mc("MCUsb2Stack (UsbSerial data path seen through the PHY boundary) MaxPkt=2 Bytes={0,1} MaxLog=%d" % (2 if quick else 3),
-               res, {"MaxPkt": 2, "BufBytes": 3, "MaxLog": 2 if quick else 3, "engine": ENGINE})
+def model_check_start(quick):
+    from concurrent.futures import ThreadPoolExecutor
+    pool = ThreadPoolExecutor(1)
+    cfg = tlc.render_cfg(_cfg("MCUsb2Stack.cfg.tmpl"), {"MaxLog": 2})      # MaxLog 3 not measured yet: same model in both tiers
+    return pool.submit(tlc.model_check, SPEC_DIR, "MCUsb2Stack", cfg, None, 3000), quick
+
+
+def model_check_finish(rep, started):
+    fut, quick = started
+    res = fut.result()
+    rep.add_mc("MCUsb2Stack (UsbSerial data path seen through the PHY boundary) MaxPkt=2 Bytes={0,1} MaxLog=2",
+               res, {"MaxPkt": 2, "BufBytes": 3, "MaxLog": 2, "engine": ENGINE})
 
 
 # ---- sub-checks ----------------------------------------------------------------------------------------------------
@@ -519,7 +544,7 @@ def extra_C22(rep):
     """ULPI receive translation in composition: every legal receive pattern gives the same device behaviour."""
     quick = rep.tier == "quick"
     common(rep)
-    model_check(rep, quick)
+    mc = model_check_start(quick)
     items = []
     rng = random.Random("%s-C22" % rep.seed)
     items.append(run_family(rep, "ulpi", 8, "rx_patterns", sc_rx_patterns(rng, 8), 0))
@@ -528,6 +553,7 @@ def extra_C22(rep):
         items.append(run_family(rep, "ulpi", 8, "enumeration_random_rx", sc_enumeration(r2, 8, 12), i,
                                 gap=r2.choice([0.3, 0.6]), stall=0.0, rx_p=r2.choice([1.0, 0.5])))
     validate(rep, items, 8, "usb2stack(ULPI) ")
+    model_check_finish(rep, mc)
 
 
 def extra_C23(rep):
@@ -552,7 +578,7 @@ def extra_C20(rep):
     quick = rep.tier == "quick"
     common(rep)
     items = []
-    for i, mp in enumerate((8, 64) if quick else (8, 64, 8, 64)):
+    for i, mp in enumerate((64,) if quick else (8, 64, 8, 64)):
         rng = random.Random("%s-C20-%d" % (rep.seed, i))
         items_mp = [run_family(rep, "ulpi", mp, "noise", sc_noise(rng, mp, rng.randint(1, 127)), i,
                                gap=0.3, stall=0.3)]
@@ -564,7 +590,7 @@ def extra_C57(rep):
     """The serial device carries bytes both ways -- through the PHY."""
     quick = rep.tier == "quick"
     common(rep)
-    for mp, count in ((8, 3 if quick else 12), (64, 2 if quick else 8)):
+    for mp, count in (((8, 4),) if quick else ((8, 12), (64, 8))):
         items = []
         for i in range(count):
             rng = random.Random("%s-C57-%d-%d" % (rep.seed, mp, i))
@@ -575,9 +601,6 @@ def extra_C57(rep):
         validate(rep, items, mp, "usb2stack(ULPI) ")
 
 
-def extra_C25(rep):
-    common(rep)
-    rep.notes.append("usb2stack: line-level composition (GatewarePHY -> USBDevice) not built yet")
-
-
-EXTRA = {"C20": extra_C20, "C22": extra_C22, "C23": extra_C23, "C25": extra_C25, "C57": extra_C57}
+# Part (B) -- FS line -> GatewarePHY -> USBDevice -- is specified (the `line` branches of Usb2Stack.tla, LineCode.tla) but has no
+# bench yet (hosts/fsline_host.py does not exist): no EXTRA for C25 is registered, so nothing is claimed for it.
+EXTRA = {"C20": extra_C20, "C22": extra_C22, "C23": extra_C23, "C57": extra_C57}
